@@ -201,6 +201,12 @@ def replay_radius(data):
     else:
         cart = uc.to_cartesian(frac)
         idx = list(data.get("mol", range(len(data["centres"])) if data.get("centres") is not None else range(len(frac))))
+        if which == "molecule_environments":
+            cen = np.array(data["centres"], float) if data.get("centres") is not None and len(data["centres"]) == len(idx) else cart[idx]
+            c._symmetry_unique_molecules = [Molecule.from_arrays(np.array(Z)[idx], cen)]
+            _, els_, pos = c.molecule_environments(radius=r)[0]
+            compare(which, pos, els_, cen, True)
+            return bool(bad), bad
         if which == "molecule_environment":
             # the molecule is given in Cartesian coordinates and may lie anywhere (its atoms are lattice translates of crystal atoms)
             cen = np.array(data["centres"], float) if data.get("centres") is not None and len(data["centres"]) == len(idx) else cart[idx]
@@ -266,6 +272,13 @@ def _call_sites(mods):
         mol = FakeMol(o, [6, 8])
         return list(o), (lambda: cr.molecule_environment(mol, radius=r))
 
+    def molecule_environments(cr, r, Iv):
+        # the plural front end (the path Hirshfeld surfaces and shape descriptors take, with their own radius)
+        o = O(2, 0)
+        mol = FakeMol(o, [6, 8])
+        cr.symmetry_unique_molecules = lambda: [mol]
+        return list(o), (lambda: cr.molecule_environments(radius=r)[0])
+
     def atom_group_surroundings(cr, r, Iv):
         o = O(3, 0)
         mol = FakeMol(o, [6, 8, 1])
@@ -300,7 +313,8 @@ def _call_sites(mods):
         return [o2[0]], fn
 
     return [("atoms_in_radius", atoms_in_radius), ("atomic_surroundings", atomic_surroundings),
-            ("molecule_environment", molecule_environment), ("atom_group_surroundings", atom_group_surroundings),
+            ("molecule_environment", molecule_environment), ("molecule_environments", molecule_environments),
+            ("atom_group_surroundings", atom_group_surroundings),
             ("atoms_in_radius (second query, other centre)", atoms_in_radius_again)]
 
 
@@ -545,7 +559,7 @@ def lemma_B(ctx, mods):
 def run(ctx):
     from chmpy.crystal.crystal import Crystal
     from chmpy.util.num import cartesian_product
-    ctx.encode(Crystal.atoms_in_radius, Crystal.atomic_surroundings, Crystal.atom_group_surroundings, Crystal.molecule_environment,
+    ctx.encode(Crystal.atoms_in_radius, Crystal.atomic_surroundings, Crystal.atom_group_surroundings, Crystal.molecule_environment, Crystal.molecule_environments,
                Crystal.slab, cartesian_product, Crystal.to_fractional, Crystal.to_cartesian)
     ctx.assume("mathematical reals stand in for IEEE doubles")
     ctx.stub("unit cell = symbolic direct matrix D, inverse I with D.I = I.D = 1 and lengths = row norms (the invariant C12 establishes); "
@@ -564,7 +578,7 @@ def run(ctx):
     from . import c03_select
     secs = [("A", lambda c: lemma_A(c, mods)), ("B", lambda c: lemma_B(c, mods))]
     secs += [("C:" + w, (lambda c, w=w: c03_select.lemma_C(c, mods, only=w)))
-             for w in ("atoms_in_radius", "atomic_surroundings", "molecule_environment", "atom_group_surroundings")]
+             for w in ("atoms_in_radius", "atomic_surroundings", "molecule_environment", "molecule_environments", "atom_group_surroundings")]
     ctx.parallel_sections(secs)
 
 
@@ -573,7 +587,7 @@ def dependency_sections(which):
     out = []
     if "slab" in which:
         out.append(("dependency: slab layout (C03 lemma B)", lambda c: lemma_B(c, Mods())))
-    sites = sorted(w for w in which if w in ("molecule_environment", "atomic_surroundings", "atom_group_surroundings", "atoms_in_radius"))
+    sites = sorted(w for w in which if w in ("molecule_environment", "molecule_environments", "atomic_surroundings", "atom_group_surroundings", "atoms_in_radius"))
     for w in sites:
         out.append(("dependency: cells searched by %s (C03 lemma A)" % w, (lambda c, w=w: lemma_A(c, Mods(), only={w}))))
     return out
